@@ -8,6 +8,7 @@ import (
 
 	appsv1 "k8s.io/api/apps/v1"
 	corev1 "k8s.io/api/core/v1"
+	"k8s.io/apimachinery/pkg/api/meta"
 	"pgregory.net/rapid"
 
 	asv1 "github.com/pingcap/advanced-statefulset/client/apis/apps/v1"
@@ -52,7 +53,7 @@ func monC11(rep Rep, v *View) (flagged bool) {
 	// The uncached re-check before adoption must then have seen it: no adoption of pods or revisions.
 	if sb := v.Rec.SetBefore; sb != nil && sb.UID == v.Set.UID && sb.DeletionTimestamp != nil && !v.Deleting {
 		for _, a := range v.Rec.Actions {
-			if a.Verb == "patch" && a.Err == nil && isAdoptPatch(a, uid) {
+			if a.Err == nil && a.IsWrite() && (a.Resource == "pods" || a.Resource == "controllerrevisions") && ownerAdopted(a, uid) {
 				rep.Violate("deleting/adopted-despite-deletion-in-api", "the set carried a deletion timestamp in the API (the cache was stale) but %s adopted an object%s", a, ctx(v))
 			}
 		}
@@ -86,6 +87,13 @@ func monC11(rep Rep, v *View) (flagged bool) {
 			rep.Violate(sig, "set carries a deletion timestamp but the reconcile issued %s%s", a, ctx(v))
 		case "controllerrevisions":
 			before, _ := a.Before.(*appsv1.ControllerRevision)
+			if after, ok := a.Result.(*appsv1.ControllerRevision); ok && before != nil && a.Err == nil && a.Verb != "patch" {
+				// adoption / release by any verb: the controlling owner reference changed
+				if !refEqual(controllerOf(before.OwnerReferences), controllerOf(after.OwnerReferences)) {
+					rep.Violate("deleting/revision-owner-changed", "set carries a deletion timestamp but %s changed the controlling owner of revision %s from %v to %v%s",
+						a, a.Name, controllerOf(before.OwnerReferences), controllerOf(after.OwnerReferences), ctx(v))
+				}
+			}
 			if a.Verb == "patch" {
 				rep.Violate("deleting/revision-owner-patched", "set carries a deletion timestamp but a ControllerRevision's owner references were patched: %s%s", a, ctx(v))
 			}
@@ -93,6 +101,23 @@ func monC11(rep Rep, v *View) (flagged bool) {
 		}
 	}
 	return true
+}
+
+// ownerAdopted: the write made the set (uid) the controlling owner of an object it did not control before.
+func ownerAdopted(a *sim.Action, uid string) bool {
+	if a.Verb == "patch" && isAdoptPatch(a, uid) {
+		return true
+	}
+	if a.Verb == "create" || a.Before == nil || a.Result == nil {
+		return false
+	}
+	bm, err1 := meta.Accessor(a.Before)
+	am, err2 := meta.Accessor(a.Result)
+	if err1 != nil || err2 != nil {
+		return false
+	}
+	b, c := controllerOf(bm.GetOwnerReferences()), controllerOf(am.GetOwnerReferences())
+	return (b == nil || string(b.UID) != uid) && c != nil && string(c.UID) == uid
 }
 
 type projection struct {
